@@ -318,6 +318,8 @@ def one(ctx, r, atoms, work, case=None):
             # chain all-reduce groups (complete, every rank contributes): clock alignment and bandwidth stages then
             # buffer and shift real work instead of passing everything through
             collectives.add_chain_allreduce(r, s, n_groups=r.choice([1, 2, 3]))
+            if r.random() < 0.4:
+                collectives.add_host_dma(r, s)
         opts, desc = gen_options(r, s)
         if hasattr(s, "coll") and ("--event_limit" in opts or "--event_filter" in opts) and "-M" not in opts:
             # limiting/filtering may remove a rank's whole contribution to a collective; the clock alignment then refuses
